@@ -18,5 +18,12 @@ PROPS = {
                 technique="runtime monitoring: offline checker over the recorded outbound byte stream (independent envelope parser + id-tagged per-channel order oracle) under injected short writes / would-blocks", progress=True, abort=False, min_nontrivial=(40, 500),
                 profiles=(["debug"], ["debug", "release"]), case_timeout=150,
                 rule="cases = (program of id-tagged client operations on 1-8 threads x 1-3 channels each) x (transport fragmentation: would-block at a byte offset of a fixed reference session, pairs of would-blocks, 1 byte per write, random scripts of short writes / spurious and lasting would-blocks); distinct = distinct (program shape, fragmentation) signature; non-trivial = the independent envelope parser checked >= 5 client frames"),
+    "C06": dict(level="exploration",
+                level_text="Held on the executions produced: the real FrameBuffer is fed streams of real frames of all four kinds (8 bytes to 20 KB) through a scripted reader; every pair of cut positions and every EOF offset of short streams is enumerated, plus random multi-cuts, 1-byte reads, 4096-byte reads, would-block after every read, corrupted frame-end octets / undecodable payloads, EOF and read errors. After every read_from call the number of frames handed on must equal the number of complete frames in the bytes supplied so far, by an independent envelope parser.",
+                level_note="Component-level (hook: verif::FrameBuffer re-export of the real type); corruption is limited to bytes that make a frame unparsable once complete (frame-end octet, method payload), never the size field. Trusted base: harness envelope parser, amq-protocol codec (frames that do not round-trip through it are not generated).",
+                technique="runtime monitoring: differential oracle (independent envelope parser) checked after every call of the hooked component, exhaustive over small cut spaces",
+                progress=False, abort=False, min_nontrivial=(100, 2000),
+                profiles=(["debug"], ["debug", "release"]), case_timeout=300,
+                rule="cases = (stream of 1-12 random real AMQP frames) x (cut positions: all pairs for short streams, random multi-cuts, 1-byte, 4096-byte, none) x (would-block after each read or not) x (terminal: none / EOF / read error) x (corruption: none / frame-end octet / undecodable payload of frame k); distinct = digest of stream bytes and script shape; every case is non-trivial (>= 1 frame)",
+                assumptions=["reads never return Ok(0) except at end of stream", "trusted base: harness envelope parser, amq-protocol codec"]),
 }
-
